@@ -29,7 +29,10 @@ RULE = ('djs_reject: layer A = every residual vector over {-6,-2,0,2,6}^n x 6 sc
         'the inverse variance on 8 pixels x 4 methods x 2 flux vectors x 2 ivar levels; non-trivial = some zero. djs_median: '
         'every array over {0,1,3}^n x every odd width <= n, 2-D arrays over small alphabets with width 3; non-trivial = '
         'width > 1 and non-constant array. skymask: every flagged/unflagged pattern on 2x8 pixels x bit dressings x dtype x '
-        'ngrow; non-trivial = at least one flagged pixel. Distinct = distinct (function, input, arguments) tuples.')
+        'ngrow; non-trivial = at least one flagged pixel. aesthetics (tiny): every vector over the per-pixel ivar alphabet {+0.0, '
+        'ordinary, tiny positive, -0.0}^n (n = 6, thorough 7) x tiny in {1e-8, 1e-12, 1e-30, smallest subnormal} x 4 methods. '
+        'Layout variants: the djs_reject / djs_maskinterp / aesthetics / skymask sub-products listed in tasks() with every array '
+        'argument big-endian, a non-contiguous view, or read-only. Distinct = distinct (function, input, arguments) tuples.')
 ASSUMPTIONS = [
     'djs_reject is exercised on 1-D data with a supplied sigma (scalar or array, > 0) or invvar (>= 0) only; residuals and '
     'limits are chosen so that no residual lies within 5 % of a threshold (no decision at a floating-point boundary)',
@@ -39,6 +42,8 @@ ASSUMPTIONS = [
     'djs_reject completion flag is compared with "returned mask == outmask passed in (all True when omitted)"',
     'djs_maskinterp axis k means the k-th fastest-varying dimension (numpy axis ndim-1-k), as the repository test suite '
     'pins it; lines without any unmasked sample carry no claim; abscissae are distinct; comparison 1e-12 relative',
+    'aesthetics: a tiny positive inverse variance (down to the smallest subnormal) is non-zero, -0.0 is zero; array layout '
+    '(byte order, strides, writeable flag) must not change any result and must not raise',
     'aesthetics: inverse variance is >= 0; only "flux unchanged where ivar != 0" is demanded (finiteness belongs to C11)',
     'djs_median(boundary="reflect"): odd widths not larger than the array; symmetric reflection = numpy.pad mode '
     '"symmetric" (edge sample repeated)',
@@ -47,6 +52,35 @@ ASSUMPTIONS = [
 ]
 
 FIXTURE = '/verif/fixtures/sdssMaskbits_min.par'
+
+# ---------------------------------------------------------------------------------------------------------------
+# array layout variants (values identical, memory representation different)
+# ---------------------------------------------------------------------------------------------------------------
+LAYOUTS = ('be', 'strided', 'ro')       # 'native' = key absent
+
+
+def lay(a, case):
+    """The same values as `a` in the layout named by case['lay'] (big-endian / non-contiguous view / read-only)."""
+    how = case.get('lay')
+    if how is None or a is None or not isinstance(a, np.ndarray):
+        return a
+    if how == 'be':
+        return a.astype(a.dtype.newbyteorder('>')) if a.dtype.kind in 'iuf' else a.copy()
+    if how == 'strided':
+        big = np.empty(a.shape[:-1] + (2 * a.shape[-1],), dtype=a.dtype)
+        big[...] = np.array(77, dtype=a.dtype) if a.dtype.kind != 'b' else True
+        big[..., ::2] = a
+        return big[..., ::2]
+    if how == 'ro':
+        b = a.copy()
+        b.setflags(write=False)
+        return b
+    raise ValueError(how)
+
+
+def ltag(case):
+    return (':layout=' + case['lay']) if case.get('lay') else ''
+
 
 # ---------------------------------------------------------------------------------------------------------------
 # djs_reject
@@ -135,9 +169,10 @@ def check_reject(case):
     if case['outmask'] is not None:
         kw['outmask'] = np.array(case['outmask'], dtype=bool)
     g = case['grow']
-    gtag = '' if g == 0 else (':grow=1' if g == 1 else ':grow>=2')
+    gtag = ('' if g == 0 else (':grow=1' if g == 1 else ':grow>=2')) + ltag(case)
+    kw = {k: lay(v, case) for k, v in kw.items()}
     try:
-        got, qdone = djs_reject(data, model, sticky=bool(case['sticky']), grow=g, **kw)
+        got, qdone = djs_reject(lay(data, case), lay(model, case), sticky=bool(case['sticky']), grow=g, **kw)
     except Exception as e:
         return [('djs_reject:exception:%s%s' % (type(e).__name__, gtag), repr(e)[:300])], 'raises-' + type(e).__name__
     bad = []
@@ -251,10 +286,11 @@ def check_maskinterp(case):
         kw['xval'] = x
     if y.ndim > 1:
         kw['axis'] = case['axis']
+    kw = {k: lay(v, case) for k, v in kw.items()}
     try:
-        got = djs_maskinterp(y, mk, **kw)
+        got = djs_maskinterp(lay(y, case), lay(mk, case), **kw)
     except Exception as e:
-        return [('djs_maskinterp:exception:%s' % type(e).__name__, repr(e)[:300])], 'raises-' + type(e).__name__
+        return [('djs_maskinterp:exception:%s%s' % (type(e).__name__, ltag(case)), repr(e)[:300])], 'raises-' + type(e).__name__
     got = np.asarray(got)
     if got.shape != y.shape:
         return [('djs_maskinterp:shape', 'got %s' % (got.shape,))], 'shape'
@@ -297,14 +333,23 @@ AES_METHODS = ('traditional', 'noconst', 'mean', 'nothing')
 
 def check_aesthetics(case):
     from pydl.pydlspec2d.spec2d import aesthetics
-    flux = np.array(AES_FLUX[case['flux']])
-    n = len(flux)
-    z = case['zeros']
-    lev = [1.0] * n if case['ivar'] == 'const' else [0.5 + 0.25 * i for i in range(n)]
-    ivar = np.array([0.0 if (z >> i) & 1 else lev[i] for i in range(n)])
+    if 'codes' in case:
+        # per-pixel alphabet: 0 -> +0.0, 1 -> ordinary level, 2 -> tiny positive (still non-zero!), 3 -> -0.0
+        codes = case['codes']
+        n = len(codes)
+        flux = np.array(AES_FLUX[case['flux']][:n])
+        tiny = {'1e-8': 1e-8, '1e-12': 1e-12, '1e-30': 1e-30, 'sub': 5e-324}[case['tiny']]
+        ivar = np.array([[0.0, 0.5 + 0.25 * i, tiny, -0.0][c] for i, c in enumerate(codes)])
+    else:
+        flux = np.array(AES_FLUX[case['flux']])
+        n = len(flux)
+        z = case['zeros']
+        lev = [1.0] * n if case['ivar'] == 'const' else [0.5 + 0.25 * i for i in range(n)]
+        ivar = np.array([0.0 if (z >> i) & 1 else lev[i] for i in range(n)])
     f0 = flux.copy()
+    flux = lay(flux, case)
     try:
-        got = aesthetics(flux, ivar, method=case['method'])
+        got = aesthetics(flux, lay(ivar, case), method=case['method'])
     except Exception as e:
         return [('aesthetics:exception:%s:%s' % (type(e).__name__, case['method']), repr(e)[:300])], 'raises-' + type(e).__name__
     got = np.asarray(got)
@@ -312,15 +357,16 @@ def check_aesthetics(case):
     if got.shape != f0.shape:
         return [('aesthetics:shape', 'got %s' % (got.shape,))], 'shape'
     keep = ivar != 0
+    ttag = ':tiny-positive-ivar' if ('codes' in case and np.any((got != f0) & keep & (ivar < 1e-7))) else ''
     if not np.array_equal(got[keep], f0[keep]):
-        bad.append(('aesthetics:flux-changed-where-ivar-nonzero:' + case['method'],
+        bad.append(('aesthetics:flux-changed-where-ivar-nonzero:' + case['method'] + ttag,
                     'got %s from %s ivar %s' % (got.tolist(), f0.tolist(), ivar.tolist())))
-    if not np.array_equal(flux[keep], f0[keep]):
+    if not np.array_equal(np.asarray(flux)[keep], f0[keep]):
         bad.append(('aesthetics:input-flux-changed-where-ivar-nonzero:' + case['method'], 'input now %s' % flux.tolist()))
     ngood = int(keep.sum())
     changed = int(np.sum(~((got == f0) | (np.isnan(got) & np.isnan(f0)))))
-    return bad, '%s:good%s:%s:%s' % (case['method'], '0' if ngood == 0 else ('1' if ngood == 1 else '2+'),
-                                     'changed' if changed else 'same', 'finite' if np.all(np.isfinite(got)) else 'nonfinite')
+    return bad, '%s%s:good%s:%s:%s' % (case['method'], ':tiny' if 'codes' in case else '', '0' if ngood == 0 else ('1' if ngood == 1 else '2+'),
+                                       'changed' if changed else 'same', 'finite' if np.all(np.isfinite(got)) else 'nonfinite')
 
 
 # ---------------------------------------------------------------------------------------------------------------
@@ -423,10 +469,11 @@ def check_skymask(case):
         om = np.array(vals, dtype=dt)
     am = np.zeros((nrows, npix), dtype=dt)
     signed = dt != 'uint64'
+    iv, am, om = lay(iv, case), lay(am, case), lay(om, case)
     try:
         got = skymask(iv, am, om, ngrow=ngrow)
     except Exception as e:
-        trig = ':signed-mask-dtype' if (signed and om is not None) else ''
+        trig = (':signed-mask-dtype' if (signed and om is not None) else '') + ltag(case)
         return [('skymask:exception:%s%s' % (type(e).__name__, trig), '%s: %s' % (dt, repr(e)[:250]))], 'raises-' + type(e).__name__
     got = np.asarray(got)
     if got.shape != iv0.shape:
@@ -457,8 +504,16 @@ def check_skymask(case):
 CHECKS = {'reject': check_reject, 'mi': check_maskinterp, 'aes': check_aesthetics, 'med': check_median, 'sky': check_skymask}
 
 
+def run_check(case):
+    bad, label = CHECKS[case['f']](case)
+    if case.get('lay'):
+        bad = [(sig if ':layout=' in sig else sig + ltag(case), msg) for sig, msg in bad]
+        label += ltag(case)
+    return bad, label
+
+
 def check_case(case):
-    return CHECKS[case['f']](case)[0]
+    return run_check(case)[0]
 
 
 def replay(case):
@@ -522,11 +577,25 @@ def tasks(tier):
             t.append({'f': 'sky', 'npix': 8, 'row0': 'all', 'row1': [r1hi << 4, (r1hi + 1) << 4], 'dress': ['swap'],
                       'dts': list(SKY_DT), 'ngrow': [1, 2]})
     t.append({'f': 'sky1'})
+    # aesthetics with tiny positive inverse variances and negative zero in the per-pixel alphabet
+    na = 7 if T else 6
+    for first in range(4):
+        for tiny in (('1e-8', '1e-12', '1e-30', 'sub') if T else ('1e-8', 'sub')):
+            t.append({'f': 'aes2', 'n': na, 'first': first, 'tiny': tiny})
+    if not T:
+        t.append({'f': 'aes2', 'n': 4, 'first': None, 'tiny': '1e-12'})
+        t.append({'f': 'aes2', 'n': 4, 'first': None, 'tiny': '1e-30'})
+    # array layout variants: big-endian, non-contiguous, read-only inputs
+    for L in LAYOUTS:
+        t.append({'f': 'layrej', 'lay': L, 'grow': [0, 1, 2] if T else [0, 2]})
+        t.append({'f': 'laymi', 'lay': L, 'shape2': [3, 4] if T else [2, 3]})
+        t.append({'f': 'layaes', 'lay': L})
+        t.append({'f': 'laysky', 'lay': L, 'ngrow': [0, 1, 2, 3] if T else [0, 2]})
     return t
 
 
 def _do(acc, case, nontrivial):
-    bad, label = CHECKS[case['f']](case)
+    bad, label = run_check(case)
     key = tuple(sorted((k, repr(v)) for k, v in case.items()))
     acc.case(key, nontrivial, ('ok:' + case['f'] + ':' + label) if not bad else 'bad:' + bad[0][0], sample=case)
     for sig, msg in bad:
@@ -542,6 +611,46 @@ def run_task(task):
                 for fl in ('sq', 'alt'):
                     for iv in ('const', 'ramp'):
                         _do(acc, {'f': 'aes', 'zeros': z, 'method': method, 'flux': fl, 'ivar': iv}, z != 0)
+    elif f == 'aes2':
+        n = task['n']
+        heads = [()] if task['first'] is None else [(task['first'],)]
+        for head in heads:
+            for rest in itertools.product((1, 0, 2, 3), repeat=n - len(head)):
+                codes = list(head + rest)
+                for method in AES_METHODS:
+                    _do(acc, {'f': 'aes', 'codes': codes, 'tiny': task['tiny'], 'method': method, 'flux': 'alt'},
+                        any(c != 1 for c in codes))
+    elif f == 'layrej':
+        inms = [None, [1, 1, 0, 1], [0, 1, 1, 1], [1, 0, 1, 0]]
+        outms = [None, [1, 1, 1, 0], [0, 1, 0, 1]]
+        for r in itertools.product((0, 6, -6), repeat=4):
+            for inm in inms:
+                for outm in outms:
+                    for sc in ('sA', 'iZ'):
+                        for sticky in (False, True):
+                            for g in task['grow']:
+                                case = {'f': 'reject', 'r': list(r), 'inmask': inm, 'outmask': outm, 'scale': sc, 'lim': [4, 4, None],
+                                        'sticky': sticky, 'grow': g, 'lay': task['lay']}
+                                _do(acc, case, not all(o_reject(case)[0][0]))
+    elif f == 'laymi':
+        for shape, axes in (([6], [None]), (task['shape2'], [0, 1])):
+            size = int(np.prod(shape))
+            for bits in range(1 << size):
+                for ax in axes:
+                    for xs in ('index', 'irr', 'perm'):
+                        for mdt in ('bool', 'int32'):
+                            _do(acc, {'f': 'mi', 'shape': shape, 'mask': bits, 'axis': ax, 'x': xs, 'const': False, 'mdt': mdt,
+                                      'lay': task['lay']}, 0 < bits < (1 << size) - 1)
+    elif f == 'layaes':
+        for z in range(256):
+            for method in AES_METHODS:
+                _do(acc, {'f': 'aes', 'zeros': z, 'method': method, 'flux': 'alt', 'ivar': 'ramp', 'lay': task['lay']}, z != 0)
+    elif f == 'laysky':
+        for r0 in range(256):
+            for dt in SKY_DT:
+                for g in task['ngrow']:
+                    _do(acc, {'f': 'sky', 'npix': 8, 'rows': [r0, 0x18], 'dress': 'rich', 'dt': dt, 'ngrow': g, 'lay': task['lay']},
+                        dt != 'int16')
     elif f == 'rejA':
         n = task['n']
         first = task['first']
